@@ -91,20 +91,25 @@ impl LineIndex {
         }
     }
 
-    // get offset by line and col
+    // get offset by line and col, a col past the end of the line is clamped to the end of the line
     pub fn get_offset(&self, line: usize, col: usize, source_text: &str) -> Option<TextSize> {
         let start_offset = self.get_line_offset(line)?;
         if col == 0 {
             return Some(start_offset);
         }
 
+        // end of the line's content: the offset of its '\n', or the end of the text for the last line
+        let line_end = match self.get_line_offset(line + 1) {
+            Some(next_line_start) => usize::from(next_line_start) - 1,
+            None => source_text.len(),
+        };
         if self.is_line_only_ascii_index(line) {
-            let col = col.min(source_text.len());
+            let col = col.min(line_end - usize::from(start_offset));
             Some(start_offset + TextSize::from(col as u32))
         } else {
             let mut offset = 0;
             let mut col = col;
-            for c in source_text[usize::from(start_offset)..].chars() {
+            for c in source_text[usize::from(start_offset)..line_end].chars() {
                 if col == 0 {
                     break;
                 }
@@ -127,13 +132,18 @@ impl LineIndex {
             return Some(0.into());
         }
 
+        // end of the line's content: the offset of its '\n', or the end of the text for the last line
+        let line_end = match self.get_line_offset(line + 1) {
+            Some(next_line_start) => usize::from(next_line_start) - 1,
+            None => source_text.len(),
+        };
         if self.is_line_only_ascii_index(line) {
-            let col = col.min(source_text.len());
+            let col = col.min(line_end - usize::from(start_offset));
             Some(TextSize::from(col as u32))
         } else {
             let mut offset = 0;
             let mut col = col;
-            for c in source_text[usize::from(start_offset)..].chars() {
+            for c in source_text[usize::from(start_offset)..line_end].chars() {
                 if col == 0 {
                     break;
                 }
